@@ -319,88 +319,97 @@ func init() {
 	})
 
 	register(&Rule{
-		ID: "C12.R7", Props: []string{"C12", "C11", "C05"}, Min: 40,
+		ID: "C12.R7", Props: []string{"C12", "C11", "C05", "C13"}, Min: 40,
 		Doc: "an evaluator's error is the caller's error: in the functions of the render path (everything the render entries reach in the engine's own package) each call of a module function that returns an error hands that error on — the error value reaches a return of the calling function (directly or wrapped), and from the edge on which it was found non-nil every way ends in a return of a non-nil error: none goes on to the next node (`continue`), and none returns a nil error. A test `err == nil` whose other edge falls through to a return of an error variable that is nil there drops it just the same. The fallbacks the engine documents (an expression that does not evaluate is tried as a path; a missing optional file) are listed in the rule, one line each",
 		Run: func(p *Prog, c *Ctx) {
-			// function → callee: the error may be answered by a fallback (confirmed by reading; the reason in a word)
-			fallback := swallowTable
 			var roots []*ssa.Function
 			for _, fn := range p.renderEntries() {
 				roots = append(roots, fn)
 			}
 			cone := p.Cone(roots...)
-			n := map[string]int{}
+			var scope []*ssa.Function
 			for _, fn := range sortedFuncs(cone) {
-				pk := funcPkg(fn)
-				if pk == nil || pk.Path() != modPath || p.Dropped[rootFunc(fn)] {
+				if pk := funcPkg(fn); pk != nil && pk.Path() == modPath {
+					scope = append(scope, fn)
+				}
+			}
+			p.errorDiscipline(c, scope, swallowTable)
+		},
+	})
+}
+
+// errorDiscipline decides, for every call in the given functions of a module function that returns an error, that the
+// error is handed on (see C12.R7). fallback: "caller ← callee" pairs whose error is answered by a documented fallback.
+func (p *Prog) errorDiscipline(c *Ctx, scope []*ssa.Function, fallback map[string]string) {
+	n := map[string]int{}
+	for _, fn := range scope {
+		if p.Dropped[rootFunc(fn)] {
+			continue
+		}
+		res := fn.Signature.Results()
+		if res.Len() == 0 || !isErrorType(res.At(res.Len()-1).Type()) {
+			continue
+		}
+		for _, site := range callsIn(fn) {
+			cv, ok := site.(*ssa.Call)
+			if !ok {
+				continue
+			}
+			callee := cv.Call.StaticCallee()
+			if callee == nil || !inModule(callee) {
+				continue
+			}
+			vals, has := errorResultOf(site)
+			if !has {
+				continue
+			}
+			pair := shortName(rootFunc(fn)) + " ← " + shortName(callee)
+			n[pair]++
+			key := fmt.Sprintf("%s#%d", pair, n[pair])
+			if why, ok := fallback[pair]; ok {
+				c.ok(key, p.instrPos(site), "documented fallback: "+why)
+				continue
+			}
+			if len(vals) == 0 {
+				c.fail(key, p.instrPos(site), "the error result is discarded")
+				continue
+			}
+			if ok, why := errorPropagated(site); !ok {
+				c.fail(key, p.instrPos(site), why+": the failure of "+shortName(callee)+" is lost and the render goes on (or reports success)")
+				continue
+			}
+			bad := ""
+			for _, e := range vals {
+				if e.Referrers() == nil {
 					continue
 				}
-				res := fn.Signature.Results()
-				if res.Len() == 0 || !isErrorType(res.At(res.Len()-1).Type()) {
-					continue
-				}
-				for _, site := range callsIn(fn) {
-					cv, ok := site.(*ssa.Call)
-					if !ok {
+				for _, r := range *e.Referrers() {
+					b, ok := r.(*ssa.BinOp)
+					if !ok || !(b.Op == token.NEQ || b.Op == token.EQL) || !(isNilConst(b.X) || isNilConst(b.Y)) || b.Referrers() == nil {
 						continue
 					}
-					callee := cv.Call.StaticCallee()
-					if callee == nil || !inModule(callee) {
-						continue
-					}
-					vals, has := errorResultOf(site)
-					if !has {
-						continue
-					}
-					pair := shortName(rootFunc(fn)) + " ← " + shortName(callee)
-					n[pair]++
-					key := fmt.Sprintf("%s#%d", pair, n[pair])
-					if why, ok := fallback[pair]; ok {
-						c.ok(key, p.instrPos(site), "documented fallback: "+why)
-						continue
-					}
-					if len(vals) == 0 {
-						c.fail(key, p.instrPos(site), "the error result is discarded")
-						continue
-					}
-					if ok, why := errorPropagated(site); !ok {
-						c.fail(key, p.instrPos(site), why+": the failure of "+shortName(callee)+" is lost and the render goes on (or reports success)")
-						continue
-					}
-					bad := ""
-					for _, e := range vals {
-						if e.Referrers() == nil {
+					for _, rr := range *b.Referrers() {
+						ifi, ok := rr.(*ssa.If)
+						if !ok {
 							continue
 						}
-						for _, r := range *e.Referrers() {
-							b, ok := r.(*ssa.BinOp)
-							if !ok || !(b.Op == token.NEQ || b.Op == token.EQL) || !(isNilConst(b.X) || isNilConst(b.Y)) || b.Referrers() == nil {
-								continue
-							}
-							for _, rr := range *b.Referrers() {
-								ifi, ok := rr.(*ssa.If)
-								if !ok {
-									continue
-								}
-								nonNil := ifi.Block().Succs[0]
-								if b.Op == token.EQL {
-									nonNil = ifi.Block().Succs[1]
-								}
-								if w := swallowsFrom(nonNil, ifi.Block(), e); w != "" && bad == "" {
-									bad = w
-								}
-							}
+						nonNil := ifi.Block().Succs[0]
+						if b.Op == token.EQL {
+							nonNil = ifi.Block().Succs[1]
 						}
-					}
-					if bad != "" {
-						c.fail(key, p.instrPos(site), "after "+shortName(callee)+" failed, "+bad)
-					} else {
-						c.ok(key, p.instrPos(site), "the error reaches the return; every way from the failure edge returns a non-nil error")
+						if w := swallowsFrom(nonNil, ifi.Block(), e); w != "" && bad == "" {
+							bad = w
+						}
 					}
 				}
 			}
-		},
-	})
+			if bad != "" {
+				c.fail(key, p.instrPos(site), "after "+shortName(callee)+" failed, "+bad)
+			} else {
+				c.ok(key, p.instrPos(site), "the error reaches the return; every way from the failure edge returns a non-nil error")
+			}
+		}
+	}
 }
 
 // swallowTable: calls whose error is answered by a documented fallback (C12.R7). Keyed "caller ← callee".
@@ -539,7 +548,7 @@ func swallowsFrom(start, test *ssa.BasicBlock, e ssa.Value) string {
 			walk(s, b, known)
 		}
 	}
-	walk(start, nil, map[ssa.Value]bool{e: true})
+	walk(start, test, map[ssa.Value]bool{e: true}) // (entered from the test: the φs of the first block take the failing edge's values)
 	return bad
 }
 
@@ -1307,6 +1316,451 @@ func init() {
 					c.check(!back, fmt.Sprintf("objectKeyEnd: scan leaves at the first colon#%d", n), p.instrPos(ifi), "the match edge does not return to the scan", "the scan goes on after it met a colon and ends up with a later one: a value with a colon of its own (a ternary, a slice expression) is cut in the wrong place — the item's key swallows half of the expression and the class / style follows the wrong operand")
 				}
 			})
+		},
+	})
+}
+
+func init() {
+	register(&Rule{
+		ID: "C10.R12", Props: []string{"C10", "C04"}, Min: 1,
+		Doc: "the order of map keys is total: where mapKeyLess falls back on the *printed form* of two keys, that comparison decides only when the forms differ (`if ta != tb { return ta < tb }`), and something else — the keys' dynamic types — decides the rest. Distinct keys print alike (1 and \"1\", 1 and int64(1), true and \"true\" in a map[any]any); a comparison that calls them equal leaves their order to sort.Slice, which is not stable and starts from Go's random map order: v-for and keys() / values() give several outputs for one input",
+		Run: func(p *Prog, c *Ctx) {
+			fn := p.MustFn("vuego.mapKeyLess")
+			printed := func(v ssa.Value) bool {
+				for _, o := range p.origins(v, OriginOpts{}) {
+					if cl, ok := o.(*ssa.Call); ok {
+						nm := calleeName(&cl.Call)
+						if nm == "helpers.Sprint" || nm == "vuego.mapKeyText" || strings.HasPrefix(nm, "fmt.Sprint") {
+							return true
+						}
+					}
+				}
+				return false
+			}
+			n := 0
+			eachInstr(fn, func(in ssa.Instruction) {
+				b, ok := in.(*ssa.BinOp)
+				if !ok || (b.Op != token.LSS && b.Op != token.GTR) || !isString(b.X.Type()) || !printed(b.X) || !printed(b.Y) {
+					return
+				}
+				n++
+				guarded := guardedBy(b.Block(), func(cnd ssa.Value, want bool) bool {
+					g, ok := cnd.(*ssa.BinOp)
+					if !ok {
+						return false
+					}
+					same := (g.X == b.X && g.Y == b.Y) || (g.X == b.Y && g.Y == b.X)
+					return same && ((g.Op == token.NEQ && want) || (g.Op == token.EQL && !want))
+				})
+				c.check(guarded, fmt.Sprintf("mapKeyLess: comparison of printed forms#%d decides only when they differ", n), p.instrPos(b), "under `ta != tb`; equal forms go on to another criterion", "keys are ordered by their printed form alone: two distinct keys that print alike compare as equal in both directions, and their order is whatever the unstable sort makes of Go's random map order — equal inputs render differently")
+			})
+			if n == 0 {
+				c.ok("mapKeyLess: no comparison of printed forms", p.pos(fn.Pos()), "keys are not ordered by their printed form")
+			}
+		},
+	})
+}
+
+func init() {
+	register(&Rule{
+		ID: "C20.R17", Props: []string{"C20", "C12"}, Min: 5,
+		Doc: "the Markdown renderer hands its errors on: every call, in a function of the markdown package, of a module function that returns an error — rendering a child, rendering a block's template, loading an embedded template — passes that error to its own caller (flow), and from the edge on which it was found non-nil no way goes on with the next node or returns nil (paths). A child that fails to render must fail the document, not leave a hole in it",
+		Run: func(p *Prog, c *Ctx) {
+			var scope []*ssa.Function
+			for _, fn := range p.liveFuncs() {
+				if pk := funcPkg(fn); pk != nil && pk.Path() == markdownPkg {
+					res := fn.Signature.Results()
+					if res.Len() > 0 && isErrorType(res.At(res.Len()-1).Type()) {
+						scope = append(scope, fn)
+					}
+				}
+			}
+			p.errorDiscipline(c, scope, markdownSwallowTable)
+		},
+	})
+
+	register(&Rule{
+		ID: "C19.R21", Props: []string{"C19", "C12"}, Min: 3,
+		Doc: "the formatter hands its errors on: every call, in a function of the formatter package, of a module function that returns an error (parsing the source, formatting a fragment or a document, writing a node) passes that error to its own caller, and from the edge on which it was found non-nil no way goes on or returns nil — a source the parser rejects must not come back as an empty or half-formatted document with a nil error",
+		Run: func(p *Prog, c *Ctx) {
+			var scope []*ssa.Function
+			for _, fn := range p.liveFuncs() {
+				if pk := funcPkg(fn); pk != nil && strings.HasSuffix(pk.Path(), "/formatter") {
+					res := fn.Signature.Results()
+					if res.Len() > 0 && isErrorType(res.At(res.Len()-1).Type()) {
+						scope = append(scope, fn)
+					}
+				}
+			}
+			p.errorDiscipline(c, scope, formatterSwallowTable)
+		},
+	})
+}
+
+// calls whose error is answered by a documented fallback, in the markdown and the formatter package
+var markdownSwallowTable = map[string]string{}
+var formatterSwallowTable = map[string]string{}
+
+func init() {
+	register(&Rule{
+		ID: "C11.R20", Props: []string{"C11"}, Min: 10,
+		Doc: "no write into a map that may be the nil map: for every map update in the module, the map that is written does not come — on any way — from the nil constant (a `var m map[K]V` that some branch leaves unassigned, a φ of nil and make). Assignment to an entry of a nil map is a run-time panic, and no render path recovers from a panic",
+		Run: func(p *Prog, c *Ctx) {
+			n := 0
+			for _, fn := range p.liveFuncs() {
+				if pk := funcPkg(fn); pk == nil || strings.Contains(pk.Path(), "/cmd/") {
+					continue
+				}
+				k := 0
+				eachInstr(fn, func(in ssa.Instruction) {
+					mu, ok := in.(*ssa.MapUpdate)
+					if !ok {
+						return
+					}
+					if _, isMap := mu.Map.Type().Underlying().(*types.Map); !isMap {
+						return
+					}
+					n++
+					k++
+					bad := false
+					for _, o := range append(p.origins(mu.Map, OriginOpts{}), mu.Map) {
+						if isNilConst(o) {
+							bad = true
+						}
+					}
+					// … unless the write is guarded by `m != nil`
+					if bad && guardedBy(mu.Block(), func(cnd ssa.Value, want bool) bool {
+						b, ok := cnd.(*ssa.BinOp)
+						if !ok || !(isNilConst(b.X) || isNilConst(b.Y)) {
+							return false
+						}
+						x := b.X
+						if isNilConst(x) {
+							x = b.Y
+						}
+						return sameValue(x, mu.Map) && ((b.Op == token.NEQ && want) || (b.Op == token.EQL && !want))
+					}) {
+						bad = false
+					}
+					c.check(!bad, fmt.Sprintf("%s: map update#%d", shortName(fn), k), p.instrPos(mu), "the map is made before it is written", "on some way the map that is written here is the nil map (declared and never made): assignment to an entry of a nil map panics, and the panic escapes the render call")
+				})
+			}
+		},
+	})
+
+	register(&Rule{
+		ID: "C11.R21", Props: []string{"C11", "C13"}, Min: 5,
+		Doc: "a position that may be -1 is not used as one: wherever the result of strings.Index / IndexByte / IndexRune / IndexAny / LastIndex… (or the bytes equivalents) is used as an index or as a bound of a slice expression, a comparison of that result with 0 or -1 controls the use (`if i >= 0`, `if i < 0 { return }`, `if i == -1 { … }`, `i != -1`). s[:strings.Index(s, \":\")] on text without a colon is a slice-bounds panic in the middle of a render",
+		Run: func(p *Prog, c *Ctx) {
+			n := 0
+			isIndexFn := func(nm string) bool {
+				for _, pre := range []string{"strings.Index", "strings.LastIndex", "bytes.Index", "bytes.LastIndex"} {
+					if strings.HasPrefix(nm, pre) {
+						return true
+					}
+				}
+				return false
+			}
+			// module functions that answer with a position or -1 (their single int result comes, on some way, from one
+			// of the searches above or is the constant -1): objectKeyEnd, findClosingBrace, …
+			posFn := map[*ssa.Function]bool{}
+			for _, fn := range p.liveFuncs() {
+				res := fn.Signature.Results()
+				if res.Len() != 1 {
+					continue
+				}
+				if b, ok := res.At(0).Type().Underlying().(*types.Basic); !ok || b.Kind() != types.Int {
+					continue
+				}
+				for _, r := range returnsOf(fn) {
+					for _, o := range append(p.origins(r.Results[0], OriginOpts{}), r.Results[0]) {
+						if k, ok := constInt(o); ok && k == -1 {
+							posFn[fn] = true
+						}
+						if cl, ok := o.(*ssa.Call); ok && isIndexFn(calleeName(&cl.Call)) {
+							posFn[fn] = true
+						}
+					}
+				}
+			}
+			for _, fn := range p.liveFuncs() {
+				if pk := funcPkg(fn); pk == nil || strings.Contains(pk.Path(), "/cmd/") {
+					continue
+				}
+				k := 0
+				for _, site := range callsIn(fn) {
+					cv, ok := site.(*ssa.Call)
+					if !ok || cv.Referrers() == nil {
+						continue
+					}
+					if callee := cv.Call.StaticCallee(); !isIndexFn(calleeName(&cv.Call)) && !(callee != nil && posFn[callee]) {
+						continue
+					}
+					// uses as a position: directly, or through i+k / i-k / a φ
+					var uses []ssa.Instruction
+					seen := map[ssa.Value]bool{}
+					var walk func(v ssa.Value, d int)
+					walk = func(v ssa.Value, d int) {
+						if seen[v] || d > 3 || v.Referrers() == nil {
+							return
+						}
+						seen[v] = true
+						for _, u := range *v.Referrers() {
+							switch x := u.(type) {
+							case *ssa.Slice:
+								if x.Low == v || x.High == v || x.Max == v {
+									uses = append(uses, x)
+								}
+							case *ssa.IndexAddr:
+								if x.Index == v {
+									uses = append(uses, x)
+								}
+							case *ssa.Index:
+								if x.Index == v {
+									uses = append(uses, x)
+								}
+							case *ssa.BinOp:
+								if x.Op == token.ADD || x.Op == token.SUB {
+									if _, isC := constInt(x.Y); isC && x.X == v {
+										walk(x, d+1)
+									}
+								}
+							case *ssa.Phi:
+								walk(x, d+1)
+							}
+						}
+					}
+					walk(cv, 0)
+					if len(uses) == 0 {
+						continue
+					}
+					// some comparison of the result with a constant controls the use
+					cmpOf := func(cnd ssa.Value) bool {
+						b, ok := cnd.(*ssa.BinOp)
+						if !ok {
+							return false
+						}
+						switch b.Op {
+						case token.EQL, token.NEQ, token.LSS, token.LEQ, token.GTR, token.GEQ:
+						default:
+							return false
+						}
+						_, cy := constInt(b.Y)
+						_, cx := constInt(b.X)
+						return (sameValue(b.X, cv) && cy) || (sameValue(b.Y, cv) && cx) || (seen[b.X] && cy) || (seen[b.Y] && cx)
+					}
+					for _, u := range uses {
+						n++
+						k++
+						ok := false
+						for _, g := range controllingIfs(u) {
+							for _, leaf := range condLeaves(g.If.Cond) {
+								if cmpOf(leaf) {
+									ok = true
+								}
+							}
+						}
+						if !ok {
+							ok = guardedBy(u.Block(), func(cnd ssa.Value, want bool) bool { return cmpOf(cnd) })
+						}
+						c.check(ok, fmt.Sprintf("%s: position from %s#%d", shortName(fn), calleeName(&cv.Call), k), p.instrPos(u), "a comparison of the result with 0 / -1 controls the use", "the result of "+calleeName(&cv.Call)+" is used as an index / slice bound without having been compared with -1 or 0: when the text does not contain what is searched, the position is -1 and the access panics (slice bounds out of range) — no render path recovers")
+					}
+				}
+			}
+		},
+	})
+}
+
+func init() {
+	register(&Rule{
+		ID: "C11.R22", Props: []string{"C11", "C15"}, Min: 3,
+		Doc: "what a map lookup may not have found is not dereferenced: where the module reads a pointer out of a map (a cache entry, a slot, a registered object) the pointer is used — a field read, a method called on it — only behind the comma-ok answer of that lookup or a comparison of the pointer with nil. `e := cache[name]; return e.dom` for a name that is not cached is a nil-pointer panic in the middle of a render; and integer division or remainder by a value that is not a non-zero constant is guarded by a comparison of the divisor with zero",
+		Run: func(p *Prog, c *Ctx) {
+			n := 0
+			for _, fn := range p.liveFuncs() {
+				if pk := funcPkg(fn); pk == nil || strings.Contains(pk.Path(), "/cmd/") {
+					continue
+				}
+				k := 0
+				eachInstr(fn, func(in ssa.Instruction) {
+					switch x := in.(type) {
+					case *ssa.Lookup:
+						mt, ok := x.X.Type().Underlying().(*types.Map)
+						if !ok {
+							return
+						}
+						if _, isPtr := mt.Elem().Underlying().(*types.Pointer); !isPtr {
+							return
+						}
+						var val ssa.Value = x
+						var okv ssa.Value
+						if x.CommaOk {
+							val = nil
+							if x.Referrers() != nil {
+								for _, r := range *x.Referrers() {
+									if ex, ok := r.(*ssa.Extract); ok {
+										if ex.Index == 0 {
+											val = ex
+										} else {
+											okv = ex
+										}
+									}
+								}
+							}
+						}
+						if val == nil || val.Referrers() == nil {
+							return
+						}
+						for _, u := range *val.Referrers() {
+							deref := false
+							switch y := u.(type) {
+							case *ssa.FieldAddr:
+								deref = y.X == val
+							case *ssa.UnOp:
+								deref = y.Op == token.MUL && y.X == val
+							case ssa.CallInstruction:
+								cc := y.Common()
+								deref = !cc.IsInvoke() && len(cc.Args) > 0 && cc.Args[0] == val && cc.Signature().Recv() != nil
+							}
+							if !deref {
+								continue
+							}
+							n++
+							k++
+							checked := guardedBy(u.Block(), func(cnd ssa.Value, want bool) bool {
+								if okv != nil && cnd == okv && want {
+									return true
+								}
+								b, ok := cnd.(*ssa.BinOp)
+								if !ok {
+									return false
+								}
+								if !((b.X == val && isNilConst(b.Y)) || (b.Y == val && isNilConst(b.X))) {
+									return false
+								}
+								return (b.Op == token.NEQ && want) || (b.Op == token.EQL && !want)
+							})
+							c.check(checked, fmt.Sprintf("%s: pointer read out of a map#%d", shortName(fn), k), p.instrPos(u), "used behind the comma-ok answer or a nil test", "a pointer read out of a map is dereferenced on a way on which neither the lookup's ok nor a comparison with nil was consulted: for a key that is not in the map the pointer is nil and the use panics")
+						}
+					case *ssa.BinOp:
+						if x.Op != token.QUO && x.Op != token.REM {
+							return
+						}
+						if b, ok := x.Type().Underlying().(*types.Basic); !ok || b.Info()&types.IsInteger == 0 {
+							return
+						}
+						if kv, ok := constInt(x.Y); ok && kv != 0 {
+							return
+						}
+						n++
+						k++
+						checked := false
+						cmpZero := func(cnd ssa.Value) bool {
+							b, ok := cnd.(*ssa.BinOp)
+							if !ok {
+								return false
+							}
+							kx, cx := constInt(b.X)
+							ky, cy := constInt(b.Y)
+							return (sameValue(b.X, x.Y) && cy && ky >= 0 && ky <= 1) || (sameValue(b.Y, x.Y) && cx && kx >= 0 && kx <= 1)
+						}
+						for _, g := range controllingIfs(x) {
+							for _, leaf := range condLeaves(g.If.Cond) {
+								if cmpZero(leaf) {
+									checked = true
+								}
+							}
+						}
+						// the length of something that was found non-empty
+						if cl := isCallNamed(x.Y, "builtin.len"); cl != nil && !checked {
+							for _, g := range controllingIfs(x) {
+								for _, leaf := range condLeaves(g.If.Cond) {
+									if b, ok := leaf.(*ssa.BinOp); ok {
+										for _, side := range []ssa.Value{b.X, b.Y} {
+											if c2 := isCallNamed(side, "builtin.len"); c2 != nil && sameValue(c2.Call.Args[0], cl.Call.Args[0]) {
+												checked = true
+											}
+										}
+									}
+								}
+							}
+						}
+						c.check(checked, fmt.Sprintf("%s: integer division#%d", shortName(fn), k), p.instrPos(x), "the divisor was compared with zero", "an integer is divided by a value that no comparison with zero controls: for a divisor of 0 (an empty collection, a data value) the operation panics")
+					}
+				})
+			}
+		},
+	})
+}
+
+func init() {
+	register(&Rule{
+		ID: "C11.R23", Props: []string{"C11", "C17"}, Min: 1,
+		Doc: "struct data is converted in time linear in its size: the recursive struct → map converter remembers what it has converted — a map from the struct's address to the finished result that is consulted before a struct's fields are walked (a hit returns the stored result) and filled when they have been — besides the set of addresses on the current path, which only ends cycles. With the path set alone a struct that is reachable over k paths is converted k times: a chain of n nodes whose two fields point at the same next node has 2^n paths; 23 such structs exhaust the memory before the template is looked at",
+		Run: func(p *Prog, c *Ctx) {
+			fn := p.MustFn("reflect.structToMap")
+			var isAddr func(v ssa.Value) bool
+			isAddr = func(v ssa.Value) bool {
+				for _, o := range append(p.origins(v, OriginOpts{}), v) {
+					if cl, ok := o.(*ssa.Call); ok && calleeName(&cl.Call) == "(reflect.Value).Pointer" {
+						return true
+					}
+					// a local that a deferred closure captures lives in a cell
+					if ld, ok := o.(*ssa.UnOp); ok && ld.Op == token.MUL {
+						if al, ok := ld.X.(*ssa.Alloc); ok {
+							for _, st := range storesToCell(al) {
+								if st.Val != v && isAddr(st.Val) {
+									return true
+								}
+							}
+						}
+					}
+				}
+				return false
+			}
+			resultMap := func(v ssa.Value) bool {
+				m, ok := v.Type().Underlying().(*types.Map)
+				if !ok {
+					return false
+				}
+				if b, isB := m.Elem().Underlying().(*types.Basic); isB && b.Kind() == types.Bool {
+					return false
+				}
+				if st, isS := m.Elem().Underlying().(*types.Struct); isS && st.NumFields() == 0 {
+					return false
+				}
+				return true
+			}
+			consulted, filled := false, false
+			walkFuncTree(fn, func(f *ssa.Function) {
+				eachInstr(f, func(in ssa.Instruction) {
+					switch x := in.(type) {
+					case *ssa.Lookup:
+						if x.CommaOk && resultMap(x.X) && isAddr(x.Index) && x.Referrers() != nil {
+							// a hit ends the conversion: the ok answer branches to a return
+							for _, r := range *x.Referrers() {
+								if ex, ok := r.(*ssa.Extract); ok && ex.Index == 1 && ex.Referrers() != nil {
+									for _, u := range *ex.Referrers() {
+										if ifi, isIf := u.(*ssa.If); isIf {
+											hit := ifi.Block().Succs[0]
+											if len(hit.Instrs) > 0 {
+												if _, isRet := hit.Instrs[len(hit.Instrs)-1].(*ssa.Return); isRet {
+													consulted = true
+												}
+											}
+										}
+									}
+								}
+							}
+						}
+					case *ssa.MapUpdate:
+						if resultMap(x.Map) && (isAddr(x.Key) || f != fn) {
+							filled = true
+						}
+					}
+				})
+			})
+			c.check(consulted && filled, "structToMap: remembers converted structs", p.pos(fn.Pos()), "a result map keyed by address is consulted before and filled after the walk", "the converter keeps no record of the structs it has converted (only of the ones on the current path): data in which a struct is reachable over several paths — a DAG, two fields pointing at one node — is converted once per path, exponentially often along a chain, until time or memory runs out before the render starts")
 		},
 	})
 }
